@@ -204,7 +204,7 @@ TRUSTED = [
 
 def run_prop(chk: Check, prop: str) -> int:
     proof = proof_stage(prop, "driver_c03", chk.thorough) if not getattr(chk, "skip_proof", False) else None
-    n = chk.budget(8000, 120000)
+    n = chk.budget(8000, 95000)
     cases = [("corpus:" + name, c) for name, c in corpus_cases(prop)]
     ncorpus = len(cases)
     nnest = 0
